@@ -1,4 +1,5 @@
 import EvyV.Props.EvalCore
+import EvyV.Props.Frame
 /-
 C15 — events run their handlers in order, isolated, on shared globals.
 -/
@@ -64,5 +65,13 @@ theorem bad_payload_is_panic (fuel : Nat) (h : Handler F) (payload : List (Val F
     (handleEvent ops ext prog fuel h.name payload st).1 = .err (.panic .anyConversion) := by
   unfold handleEvent
   simp [hf, hl, hb]
+
+/-- **whole programs**: a handler run of any length gives the scope stack back exactly, and only adds to
+heap, yields and trace -/
+theorem handler_is_isolated (n : Nat) (name : Str) (payload : List (Val F)) (st : St F) :
+    let st' := (handleEvent ops ext prog n name payload st).2
+    st'.locals = st.locals ∧ st.heap.size ≤ st'.heap.size ∧ st.yields ≤ st'.yields ∧ st'.stopAt = st.stopAt ∧
+    (st.stopped = true → st'.stopped = true) ∧ ∃ suf, st'.trace = suf ++ st.trace :=
+  handleEvent_frame ops ext prog n name payload st
 
 end EvyV.C15
